@@ -42,7 +42,14 @@ struct Normal {
 		if (o.allow_table_change && dp.chance(50)) {
 			bus.table_change_at = dp.range(0, (int) bus.nodes[0].children.size());
 			bus.table_changes_left = dp.range(1, 2);
-			if (o.allow_drop && dp.chance(128)) {
+			// now and then it is the table of a nested interface that changes while it is read (the restart still begins at the root)
+			std::vector<int> hubs;
+			for (size_t i = 1; i < bus.nodes.size(); i++) if (!bus.nodes[i].children.empty()) hubs.push_back((int) i);
+			if (!hubs.empty() && dp.chance(110)) {
+				bus.table_change_node = hubs[dp.pick((unsigned) hubs.size())];
+				bus.table_change_at = dp.range(0, (int) bus.nodes[(size_t) bus.table_change_node].children.size());
+			}
+			if (bus.table_change_node == 0 && o.allow_drop && dp.chance(128)) {
 				// a leaf directly below the root disappears when the table changes
 				std::vector<int> leaves;
 				for (int ch : bus.nodes[0].children)
